@@ -248,7 +248,9 @@ func rulesC11(w *World, o *Out) {
 		if f == nil {
 			continue
 		}
-		for _, s := range FindCalls(f, false, func(c Callee) bool { return c.Is(skw, "Keeper", "SetAttestation") || c.Is(skw, "Keeper", "GetAttestation") }) {
+		for _, s := range FindCalls(f, false, func(c Callee) bool {
+			return c.Is(skw, "Keeper", "SetAttestation") || c.Is(skw, "Keeper", "GetAttestation")
+		}) {
 			args := s.Args()
 			ok := len(args) >= 5 &&
 				fl.DependsOnCall(args[2], isCallee("", "", "GetChainReferenceId")) != nil &&
